@@ -25,6 +25,7 @@ macro_rules! for_props {
         {
             $m!(props::c08::C08);
             $m!(props::c17::C17);
+            $m!(props::c19::C19);
         }
         #[cfg(huginn_net_verif_sched)]
         {}
